@@ -25,7 +25,7 @@ func zzIsClosed(err error) bool {
 // call; a stream-limit error does not reconnect; after Close nothing is open
 // and every call fails without touching the configuration.
 //
-//verif:harness kind=api replay=interp unwind=64 preempt=0 bound=calls<=4(quick)/6(thorough),lazy/eager,5-faults
+//verif:harness kind=api replay=interp unwind=64 preempt=0 bound=calls<=4(quick)/6(thorough),lazy/eager,5-faults,5-kinds-of-connection-loss(generic/idle-timeout/application-close/stateless-reset/transport-error)
 func ZZ_C16_ReconnectCensus() {
 	zzServer.header = http.Header{"Hysteria-Udp": []string{"false"}}
 	zzServer.status = 233
@@ -69,7 +69,19 @@ func ZZ_C16_ReconnectCensus() {
 				st := zzConn(zzConnList[nconn-1])
 				st.streamErr = nil
 				if fault == 1 {
-					st.streamErr = errors.New("connection lost")
+					// the ways quic-go reports a dead connection: announced or silent
+					switch verifChoice("lossKind", 5) {
+					case 0:
+						st.streamErr = errors.New("connection lost")
+					case 1:
+						st.streamErr = &quic.IdleTimeoutError{} // nothing heard from the server any more
+					case 2:
+						st.streamErr = &quic.ApplicationError{Remote: true, ErrorCode: 0x107}
+					case 3:
+						st.streamErr = &quic.StatelessResetError{}
+					case 4:
+						st.streamErr = &quic.TransportError{Remote: true, ErrorCode: 0xa}
+					}
 				} else if fault == 2 {
 					st.streamErr = &quic.StreamLimitReachedError{}
 				}
